@@ -4,8 +4,9 @@ set -e
 cd "$(dirname "$0")"
 mkdir -p ocaml _build
 # Extract.v is compiled by the engine's make (it is listed in _CoqProject); re-run it if model.ml is stale
-if [ ! -f model.ml ] || [ Model.v -nt model.ml ] || [ Extract.v -nt model.ml ]; then
+if [ ! -f model.ml ] || [ Model.v -nt model.ml ] || [ Spec.v -nt model.ml ] || [ Extract.v -nt model.ml ]; then
   timeout 300 coqc -Q . Cursors Model.v >/dev/null
+  timeout 300 coqc -Q . Cursors Spec.v >/dev/null
   timeout 300 coqc -Q . Cursors Extract.v >/dev/null
 fi
 if [ ! -x _build/c06_driver ] || [ model.ml -nt _build/c06_driver ] || [ ocaml/driver.ml -nt _build/c06_driver ]; then
